@@ -96,7 +96,7 @@ static const lay_t LAY[NLAY]={
 };
 
 /* ------------------------------------------------------------------ counters / sets */
-static mc_ctr *c_sizefail,*c_eval,*c_trans,*c_cbr_exact,*c_cbr_tie,*c_cbr_tie_up,*c_max_fill,*c_auto_const,*c_empty,*c_toosmall,*c_rfc,*c_dec,*c_vbr_pk,*c_bytes,*c_merged,*c_chains,*c_clip_lo,*c_clip_hi,*c_cvbr_runs;
+static mc_ctr *c_mixed,*c_sizefail,*c_eval,*c_trans,*c_cbr_exact,*c_cbr_tie,*c_cbr_tie_up,*c_max_fill,*c_auto_const,*c_empty,*c_toosmall,*c_rfc,*c_dec,*c_vbr_pk,*c_bytes,*c_merged,*c_chains,*c_clip_lo,*c_clip_hi,*c_cvbr_runs;
 static mc_set *g_states,*g_obs;
 
 /* ------------------------------------------------------------------ signals: a period of 1.2 s per family, precomputed per (Fs,ch) */
@@ -169,7 +169,7 @@ static float DECOUT[5760*8];
 
 /* judge one encode call. how = free text describing the history that led here. returns 1 if a failure was recorded */
 static int judge(codec *c,const short *pcm,int mdb,const char *how,int *len_out){
-   unsigned char *out=BLK[mdb]; int ret,i,s,off,nframes=0,empty=1,r,toc0=0,code0=0; int szfail=0; char sig[96]; rfc_pkt m;
+   unsigned char *out=BLK[mdb]; int ret,i,s,off,nframes=0,empty=1,ndropped=0,r,toc0=0,code0=0; int szfail=0; char sig[96]; rfc_pkt m;
    memset(out,0x5A,mdb);
    mc_case(c->ms?"ms:encode":"enc:encode","%s mode=%s bitrate=%s max_data_bytes=%d (exact-size heap block) | %s",c->desc,modename(c),brname(c->braw),mdb,how);
    ret = c->ms? opus_multistream_encode(c->enc,pcm,c->fs,out,mdb) : opus_encode(c->enc,pcm,c->fs,out,mdb);
@@ -204,7 +204,7 @@ static int judge(codec *c,const short *pcm,int mdb,const char *how,int *len_out)
          return 1;
       }
       if (s==0){ toc0=m.toc>>3; code0=m.toc&3; }
-      nframes+=m.count; for(i=0;i<m.count;i++) if(m.size[i]>1) empty=0;
+      nframes+=m.count; for(i=0;i<m.count;i++){ if(m.size[i]>1) empty=0; else ndropped++; }
       off+=m.consumed;
    }
    if (off!=ret){
@@ -212,7 +212,7 @@ static int judge(codec *c,const short *pcm,int mdb,const char *how,int *len_out)
       mc_fail(sig,"%s mode=%s max_data_bytes=%d -> %d bytes but the streams account for %d: %s | %s",c->desc,modename(c),mdb,ret,off,mc_hex(out,ret<48?ret:48),how);
       return 1;
    }
-   MC_INC(c_rfc);
+   MC_INC(c_rfc); if (!empty && ndropped>0) MC_INC(c_mixed);      /* some frames dropped (payload <= 1 byte), some coded: NOT a DTX packet */
    /* (b) tree decoder */
    r = c->ms? opus_multistream_decode_float(c->dec,out,ret,DECOUT,5760,0) : opus_decode_float(c->dec,out,ret,DECOUT,5760,0);
    if (r<=0){
@@ -331,6 +331,57 @@ static void grid_item(long it,void *ctx){
       if (g_fresh) fresh_runs(0,FS[fi],ch,ai,di,mode,bi,si);       /* --fresh 2: only brand-new encoders */
    }
 }
+/* ------------------------------------------------------------------ part grid, activity items: DTX {off,on} x one further deviation x schedules
+ * The statement's CBR clause exempts exactly the DTX packets, so DTX-on is inside the property.  Space:
+ *   9 durations x {CBR,VBR,CVBR} x DTX {off,on} x deviation {none, in-band FEC on (+20 % expected loss), complexity 5, complexity 10}
+ *   x 5 activity schedules over 1.9 s (loud / digital silence, <= 2 switch points that do NOT fall on packet boundaries, >= 1.39 s of
+ *   silence in one stretch so that the DTX hang-over, a DTX run and the 400 ms refresh all occur)   = 1080 combinations,
+ *   each run for P picks of (rate, channels, application, bitrate, max_data_bytes, loud family): quick P=4 chosen by a Latin rotation,
+ *   thorough P=60 = all 30 (rate, channels, application) x 2 rotated (bitrate, max_data_bytes) picks.
+ * Oracle: judge() unchanged - every packet is parsed with the RFC model, it is a DTX/empty packet iff EVERY frame payload is <= 1 byte and
+ * exactly those are exempt; every other CBR packet must have the statement's exact size, whatever mixture of coded and dropped frames it holds. */
+static const int AX_BR[10]={8000,12000,16000,24000,32000,64000,128000,510000,OPUS_AUTO,OPUS_BITRATE_MAX};
+static const int AX_MDB[6]={1500,1500,4000,1276,200,48};
+static const char *const AX_DEVN[4]={"none","in-band FEC on + 20% expected loss","complexity 5","complexity 10"};
+/* loud intervals [a,b) in ms inside a 1900 ms run */
+static const int AX_SCHED[5][4]={{0,0,0,0},{0,310,0,0},{1390,1900,0,0},{0,250,1650,1900},{290,500,0,0}};
+static const char *const AX_SCHEDN[5]={"silence 1900 ms","loud 0-310 ms then silence","silence 0-1390 ms then loud","loud 0-250 ms, silence, loud 1650-1900 ms","silence, loud 290-500 ms, silence"};
+#define AX_NCOMBO 1080L
+static int g_ax_picks;
+static short AXF[5760*2];
+static void ax_frame(int loudfam,long s0,int fs,int ch,int Fs,int sched){
+   long n; for(n=0;n<fs;n++){ long ms_x10=(s0+n)*10000/Fs; int loud=0,k; for(k=0;k<4;k+=2) if (ms_x10>=AX_SCHED[sched][k]*10L && ms_x10<AX_SCHED[sched][k+1]*10L) loud=1;
+      if (loud) memcpy(AXF+n*ch,SB[loudfam]+((s0+n)%SB_period)*ch,sizeof(short)*ch); else memset(AXF+n*ch,0,sizeof(short)*ch); }
+}
+static void activity_item(long it,void *ctx){
+   long combo=it/g_ax_picks; int r=(int)(it%g_ax_picks);
+   int sched=combo%5, dev=(combo/5)%4, dtx=(combo/20)%2, mode=(combo/40)%3, di=(int)(combo/120);
+   int fi,ch,ai,bi,mi,lf,q,nfr,f; codec c; char how[300]; long s0=0; int rc=0; (void)ctx;
+   if (g_ax_picks>=30){ q=r/30; fi=r%5; ch=1+(r/5)%2; ai=(r/10)%3; }
+   else { q=r; fi=(sched+dev+mode+di+r+dtx)%5; ch=1+(dev+di+r+mode)%2; ai=(sched+di+2*r+mode)%3; }
+   bi=(sched*2+dev*3+di+mode*5+q*7+fi)%10; mi=(sched+dev+di*2+q+ch)%6; lf=1+(int)((combo+r)%3);
+   need_blk(AX_MDB[mi]);
+   mk_signals(FS[fi],ch,SIGF,4,1200);
+   if (codec_open(&c,0,FS[fi],ch,ai,DU[di])) return;
+   MC_INC(c_chains);
+   rc|=set_vbr(&c,mode!=0); rc|=set_cvbr(&c,mode==2); rc|=set_br(&c,AX_BR[bi]); rc|=opus_encoder_ctl(c.enc,OPUS_SET_DTX(dtx));
+   if (dev==1){ rc|=opus_encoder_ctl(c.enc,OPUS_SET_INBAND_FEC(1)); rc|=opus_encoder_ctl(c.enc,OPUS_SET_PACKET_LOSS_PERC(20)); }
+   if (dev==2) rc|=opus_encoder_ctl(c.enc,OPUS_SET_COMPLEXITY(5));
+   if (dev==3) rc|=opus_encoder_ctl(c.enc,OPUS_SET_COMPLEXITY(10));
+   if (rc){ mc_fail("setup:ctl","%s: a ctl was refused",c.desc); codec_close(&c); return; }
+   nfr=(1900*(c.Fs/100)/10 + c.fs-1)/c.fs;
+   for(f=0;f<nfr;f++){
+      snprintf(how,sizeof how,"DTX %s, deviation: %s; activity schedule '%s' (loud = %s, silence = digital zeros); frame %d of %d",dtx?"on":"off",AX_DEVN[dev],AX_SCHEDN[sched],sig_name[SIGF[lf]],f,nfr);
+      ax_frame(lf,s0,c.fs,c.ch,c.Fs,sched);
+      if (judge(&c,AXF,AX_MDB[mi],how,NULL)){ codec_close(&c); return; }
+      s0+=c.fs;
+      if ((f&31)==31) note_state(&c,5);
+   }
+   note_state(&c,5);
+   codec_close(&c);
+}
+static long g_grid_base;
+static void grid_any_item(long it,void *ctx){ if (it<g_grid_base) grid_item(it,ctx); else activity_item(it-g_grid_base,ctx); }
 static int g_allapp, g_rotfs;
 static void ms_item(long it,void *ctx){
    int mode=it%3, di=(it/3)%9, li=(it/27)%NLAY, fi=(int)(it/(27*NLAY)), bi,ai,si; long fr=0; (void)ctx;
@@ -348,7 +399,7 @@ static void ms_item(long it,void *ctx){
 #define NPAIR 6
 static const int BP[NPAIR][2]={{6000,64000},{500,OPUS_BITRATE_MAX},{OPUS_AUTO,24000},{12000,512000},{1000,16000},{OPUS_BITRATE_MAX,OPUS_AUTO}};
 static const int MP[NPAIR][2]={{2,1500},{12,40},{253,1276},{1,100},{4000,30},{24,257}};
-static int g_nops, g_depth, g_combos;
+static int g_nops, g_depth, g_combos, g_combos_dtx, cur_dtx;
 static const char *const OPN[6]={"toggle VBR","set bitrate b1","set bitrate b2","set max bytes m1","set max bytes m2","toggle VBR constraint"};
 typedef struct { int use_vbr,cvbr,braw,mdb,last_valid,last_sz,last_mdb; } sett;
 static unsigned char *IMG[8];
@@ -369,8 +420,8 @@ static int dfs(codec *c,int depth,sett s,int bp,int mp,int si,int warm,char *pat
       }
       if (rc!=OPUS_OK){ mc_fail("setup:ctl","%s: op '%s' refused (%d)",c->desc,OPN[op],rc); return 1; }
       snprintf(path+pl,200-pl,"%s%s",pl?" ; ":"",OPN[op]);
-      snprintf(how,sizeof how,"signal=%s; %d warm-up frame(s) with library defaults and max_data_bytes=%d, then one encode after each op: [%s] with b1=%s b2=%s m1=%d m2=%d",
-               sig_name[SIGF[si]],warm,MP[mp][1],path,brname(BP[bp][0]),brname(BP[bp][1]),MP[mp][0],MP[mp][1]);
+      snprintf(how,sizeof how,"signal=%s; %d warm-up frame(s) with library defaults%s and max_data_bytes=%d, then one encode after each op: [%s] with b1=%s b2=%s m1=%d m2=%d",
+               sig_name[SIGF[si]],warm,cur_dtx?" + DTX on":"",MP[mp][1],path,brname(BP[bp][0]),brname(BP[bp][1]),MP[mp][0],MP[mp][1]);
       if (judge(c,sig_frame(si,warm+depth,c->fs,c->ch),mdb,how,NULL)){ path[pl]=0; continue; }   /* recorded; this branch ends here, siblings restart from the snapshot */
       get_sett(c,&t,mdb);
       {
@@ -383,13 +434,18 @@ static int dfs(codec *c,int depth,sett s,int bp,int mp,int si,int warm,char *pat
    }
    return 0;
 }
-static void hist_run(int ms,int Fs,int chl,int ai,int di,int init_cbr,int bp,int mp,int si){
+static void hist_run(int ms,int Fs,int chl,int ai,int di,int init_cbr,int bp,int mp,int si,int dtx){
    codec c; sett s; int d,warm=2,f; char path[200]; char how[160];
    if (codec_open(&c,ms,Fs,chl,ai,DU[di])) return;
    MC_INC(c_chains);
    for(d=0;d<=g_depth;d++) IMG[d]=malloc(c.enc_size);
    if (init_cbr) set_vbr(&c,0);
-   for(f=0;f<warm;f++){ snprintf(how,sizeof how,"signal=%s; warm-up frame %d (defaults%s)",sig_name[SIGF[si]],f,init_cbr?" + VBR off":""); if (judge(&c,sig_frame(si,f,c.fs,c.ch),MP[mp][1],how,NULL)) goto done; }
+   cur_dtx=dtx;
+   if (dtx){       /* DTX on; the warm-up covers 220 ms so that (on silence) the DTX onset, 200 ms after the start, falls next to / inside the explored frames */
+      if (X_ctl(&c,OPUS_SET_DTX_REQUEST,1)!=OPUS_OK){ mc_fail("setup:ctl","%s: OPUS_SET_DTX refused",c.desc); goto done; }
+      warm=(88+c.du-1)/c.du; if (warm<2) warm=2;
+   }
+   for(f=0;f<warm;f++){ snprintf(how,sizeof how,"signal=%s; warm-up frame %d of %d (defaults%s%s)",sig_name[SIGF[si]],f,warm,init_cbr?" + VBR off":"",dtx?" + DTX on":""); if (judge(&c,sig_frame(si,f,c.fs,c.ch),MP[mp][1],how,NULL)) goto done; }
    memcpy(IMG[0],c.enc,c.enc_size); mc_set_add(g_states,mc_hash(c.enc,c.enc_size,mc_mix(mc_mix(0,MP[mp][1]),mc_mix(si,c.du))));
    get_sett(&c,&s,MP[mp][1]); path[0]=0;
    dfs(&c,0,s,bp,mp,si,warm,path);
@@ -398,16 +454,20 @@ done:
    codec_close(&c);
 }
 static void hist_item(long it,void *ctx){
-   int init_cbr=it%2, di=(it/2)%9, ai=(it/18)%3, ch=1+(it/54)%2, fi=(int)(it/108), k; (void)ctx;
+   int init_cbr=it%2, di=(it/2)%9, ai=(it/18)%3, ch=1+(it/54)%2, fi=(int)((it/108)%5), dtx=(int)(it/540), k; (void)ctx;
    if (!((g_fsmask>>fi)&1)) return;
    for(k=0;k<NPAIR;k++) need_blk(MP[k][0]),need_blk(MP[k][1]);
    mk_signals(FS[fi],ch,SIGF,4,1200);
+   if (dtx){      /* DTX dimension: items 540..1079 repeat the bases with OPUS_SET_DTX(1); digital silence on even combos, a loud family on odd ones */
+      for(k=0;k<g_combos_dtx;k++){ int bp=(k+di+ai)%NPAIR, mp=(k*5+di+fi+init_cbr+ch)%NPAIR; hist_run(0,FS[fi],ch,ai,di,init_cbr,bp,mp,(k&1)?1+(k/2+di)%3:0,1); }
+      return;
+   }
    for(k=0;k<g_combos;k++){
       /* combos: quick = a Latin rotation of (bitrate pair, max-bytes pair); thorough = the full 6x6 product */
       int bp = g_combos>NPAIR? k/NPAIR : (k+di)%NPAIR, mp = g_combos>NPAIR? k%NPAIR : (k*5+di+ai+fi+init_cbr+ch)%NPAIR;
       int si = 1+(k+di+ai+init_cbr)%3;
       if (g_combos<=NPAIR && k&1) si=0;      /* silence on every other combo in the reduced set */
-      hist_run(0,FS[fi],ch,ai,di,init_cbr,bp,mp,si);
+      hist_run(0,FS[fi],ch,ai,di,init_cbr,bp,mp,si,0);
    }
 }
 static void mshist_item(long it,void *ctx){
@@ -418,7 +478,7 @@ static void mshist_item(long it,void *ctx){
    for(k=0;k<g_combos;k++){
       int bp = g_combos>NPAIR? k/NPAIR : (k+di)%NPAIR, mp = g_combos>NPAIR? k%NPAIR : (k*5+di+li+fi+init_cbr)%NPAIR;
       int si = 1+(k+di+li+init_cbr)%3, ai=(k+di+li)%3;
-      hist_run(1,FS[fi],li,ai,di,init_cbr,bp,mp,si);
+      hist_run(1,FS[fi],li,ai,di,init_cbr,bp,mp,si,0);
    }
 }
 
@@ -566,7 +626,7 @@ int main(int argc,char **argv){
    const char *mode; long skipped=0;
    mc_init(argc,argv,"C05","grid");
    mode=mc_arg_s("--mode","grid"); MC.part=mc_arg_s("--part",mode);
-   c_eval=mc_counter("evaluations"); c_sizefail=mc_counter("size_clause_failures"); c_trans=mc_counter("transitions");
+   c_eval=mc_counter("evaluations"); c_mixed=mc_counter("packets_with_coded_and_dropped_frames"); c_sizefail=mc_counter("size_clause_failures"); c_trans=mc_counter("transitions");
    c_cbr_exact=mc_counter("cbr_size_exact_checks"); c_cbr_tie=mc_counter("cbr_half_ties"); c_cbr_tie_up=mc_counter("cbr_half_ties_rounded_up");
    c_clip_lo=mc_counter("cbr_clipped_to_minimum"); c_clip_hi=mc_counter("cbr_clipped_to_buffer_or_1276");
    c_max_fill=mc_counter("bitrate_max_fill_checks"); c_auto_const=mc_counter("auto_constancy_checks"); c_empty=mc_counter("cbr_empty_packets_exempt");
@@ -577,11 +637,13 @@ int main(int argc,char **argv){
    if (!strcmp(mode,"grid")||!strcmp(mode,"ms")){
       mk_mdb((int)mc_arg("--fullmdb",0));
       g_nrep=(int)mc_arg("--nrep",1); g_allsig=(int)mc_arg("--allsig",0); g_fresh=(int)mc_arg("--fresh",0); g_allapp=(int)mc_arg("--allapp",0);
-      if (!strcmp(mode,"grid")) skipped=mc_par(g_split?810L*NBR:810,grid_item,NULL); else skipped=mc_par(27L*NLAY*5,ms_item,NULL);
+      if (!strcmp(mode,"grid")){ int k; g_ax_picks=(int)mc_arg("--activity",4); for(k=0;k<6;k++) need_blk(AX_MDB[k]);
+         g_grid_base = (int)mc_arg("--nochain",0)? 0 : (g_split?810L*NBR:810);
+         skipped=mc_par(g_grid_base+(g_ax_picks>0?AX_NCOMBO*g_ax_picks:0),grid_any_item,NULL); } else skipped=mc_par(27L*NLAY*5,ms_item,NULL);
    } else if (!strcmp(mode,"hist")||!strcmp(mode,"mshist")){
       int k; for(k=0;k<NPAIR;k++){ need_blk(MP[k][0]); need_blk(MP[k][1]); }
-      g_nops=(int)mc_arg("--nops",6); g_depth=(int)mc_arg("--depth",3); g_combos=(int)mc_arg("--combos",3);
-      if (!strcmp(mode,"hist")) skipped=mc_par(540,hist_item,NULL); else skipped=mc_par(18L*NLAY*5,mshist_item,NULL);
+      g_nops=(int)mc_arg("--nops",6); g_depth=(int)mc_arg("--depth",3); g_combos=(int)mc_arg("--combos",3); g_combos_dtx=(int)mc_arg("--dtxcombos",1);
+      if (!strcmp(mode,"hist")) skipped=mc_par(g_combos_dtx>0?1080:540,hist_item,NULL); else skipped=mc_par(18L*NLAY*5,mshist_item,NULL);
    } else if (!strcmp(mode,"cvbr")){
       int a,b; char nm[48];
       need_blk(1500); g_cv_ms=(int)mc_arg("--ms",10000); g_cv_rotsig=(int)mc_arg("--rotsig",0); g_cv_calib=(int)mc_arg("--calib",0);
